@@ -362,7 +362,7 @@ class Projector:
 
 
 VIEW_VALUE_FIELDS = ("into_inner", "as_ref", "deref", "borrow", "borrow2", "into", "clone", "iter", "iter_ref")
-CANON_EPS = ("canon", "canon_tf", "canon_disp", "canon_serde", "canon_fmt", "canon_via_from_str", "canon_via_try_from", "canon_via_from", "canon_via_deser")
+CANON_EPS = ("canon", "canon_tf", "canon_disp", "canon_serde", "canon_fmt", "canon_via_from_str", "canon_via_try_from", "canon_via_from", "canon_via_deser", "canon_via_deser_seq", "canon_via_deser_ronv")
 
 
 def item_values(d, ep, inp, out, x):
